@@ -7,7 +7,7 @@ Local Open Scope N_scope.
 Definition C0 : cfg :=
   {| rh := fun id => if id =? 1 then 0 else if id =? 2 then 8 else 10;
      hashof := fun id => if id =? 1 then 0 else if id =? 2 then 1 else 5;
-     key := fun id => id;
+     key := fun id => if id =? 6 then 5 else id;        (* node 6 carries the key of node 5: it can replace it *)
      bucket := fun i => if i =? 0 then 1 else 2 |}.
 Definition isB0 (x : N) : bool := (x =? 1) || (x =? 2).
 Definition m0 : mem hloc := fun l =>
@@ -19,12 +19,12 @@ Definition m0 : mem hloc := fun l =>
 Definition threads (t : nat) : list hop :=
   match t with
   | 0%nat => [OAdd 3 5 false; OAdd 4 5 false]
-  | 1%nat => [OAdd 5 5 true]
+  | 1%nat => [OAdd 5 5 true; OLookup 5 10 5; OReplaceFound 6]
   | 2%nat => [OLookup 5 10 3; ODelFound; OLookup 5 10 4]
   | _ => []
   end.
 Definition s0 : state hloc (hprog C0) :=
-  {| smem := m0; sthr := fun t => {| tpc := ({| hcur := H_Idle; htodo := threads t; found := 0 |} : pst hloc (hprog C0)); tbuf := [] |} |}.
+  {| smem := m0; sthr := fun t => {| tpc := ({| hcur := H_Idle; htodo := threads t; found := 0; fnext := 0 |} : pst hloc (hprog C0)); tbuf := [] |} |}.
 
 Lemma Hbkt0 : forall i, isB0 (bucket C0 i) = true.
 Proof. intros i. cbn. destruct (i =? 0); reflexivity. Qed.
@@ -32,6 +32,11 @@ Lemma Hbk0 : forall node, rh C0 (bucket C0 (N.land (hashof C0 node) (2 - 1))) <=
 Proof.
   intros node. cbn [C0 rh hashof bucket]. destruct (N.eqb_spec node 1) as [->|H1]; [cbn; lia|].
   destruct (N.eqb_spec node 2) as [->|H2]; cbn; lia.
+Qed.
+
+Lemma Hrhi0 : forall a b, rh C0 a = rh C0 b -> hashof C0 a = hashof C0 b.
+Proof.
+  intros a b. cbn [C0 rh hashof]. destruct (a =? 1), (a =? 2), (b =? 1), (b =? 2); intros H; try reflexivity; discriminate.
 Qed.
 
 Lemma insd0 x : insd C0 s0 x <-> isB0 x = true.
@@ -50,6 +55,7 @@ Proof.
     + intros t. exact I.
     + intros t. reflexivity.
     + intros t; destruct t as [|[|[|t]]]; cbn; repeat constructor.
+    + intros t Hz. exfalso. apply Hz. destruct t as [|[|[|t]]]; reflexivity.
   - constructor.
     + intros t. reflexivity.
     + intros x Hx. apply insd0 in Hx. unfold nxw, Mm; cbn [s0 smem m0].
@@ -79,9 +85,25 @@ Example resident_found_instance : forall cs n,
   let s' := fst (run hloc hloc_eqb (hprog C0) cs s1) in
   rmd C0 s' 3 = false -> hcur (HS C0 2 s') = L_Ret n -> htodo (HS C0 2 s') = [ODelFound; OLookup 5 10 4] -> good C0 3 n.
 Proof.
-  intros cs n s1 s'. apply (lookup_returns_key C0 isB0 2 Hbkt0 Hbk0 3 2%nat [ODelFound; OLookup 5 10 4] eq_refl cs s1 n).
-  - apply (lfht_own_bucket_all_schedules C0 isB0 2 Hbkt0 Hbk0). apply Inv3_s0.
+  intros cs n s1 s'. apply (lookup_returns_key C0 isB0 2 Hbkt0 Hbk0 Hrhi0 3 2%nat [ODelFound; OLookup 5 10 4] eq_refl cs s1 n).
+  - apply (lfht_own_bucket_all_schedules C0 isB0 2 Hbkt0 Hbk0 Hrhi0). apply Inv3_s0.
   - vm_compute. reflexivity.
   - split; vm_compute; reflexivity.
 Qed.
 Print Assumptions resident_found_instance.
+
+(* thread 1 has added node 5, looked it up, and stands at the replacing cmpxchg with node 6: the hypotheses of replace_cas_effect can be met, and the
+   conclusion is not vacuous (node 5 flagged, node 6 live behind it) *)
+Example replace_instance :
+  let s1 := fst (run hloc hloc_eqb (hprog C0) (repeat (Step 1%nat) 13) s0) in
+  let s' := fst (exec hloc hloc_eqb (hprog C0) (Step 1%nat) s1) in
+  rmd C0 s1 5 = false /\ rmd C0 s' 5 = true /\ ptr (nxw C0 s' 5) = 6 /\ insd C0 s' 6 /\ rmd C0 s' 6 = false /\ reach C0 s' (bkt C0 2 6) 6.
+Proof.
+  intros s1 s'.
+  assert (HI : Inv3 C0 isB0 2 s1) by (apply (lfht_own_bucket_all_schedules C0 isB0 2 Hbkt0 Hbk0 Hrhi0); apply Inv3_s0).
+  assert (Hpc : PCr C0 s1 1%nat = R_Cas 5 6 0 2) by (vm_compute; reflexivity).
+  assert (Eq : nxw C0 s1 5 = 0) by (vm_compute; reflexivity).
+  destruct (replace_cas_effect C0 isB0 2 Hbkt0 Hbk0 Hrhi0 s1 1%nat 5 6 0 2 HI Hpc Eq) as (_ & A & B & D & E & F & _ & _ & G).
+  repeat split; assumption.
+Qed.
+Print Assumptions replace_instance.
